@@ -2,6 +2,12 @@ Require Import XRead XReadSpec XReadProofs.
 From Coq Require Import List Arith Bool Lia.
 Import ListNotations.
 
+(* the default mode *)
+Local Notation scan := (XRead.scan false).
+Local Notation flat_next := (XRead.flat_next false).
+Local Notation flat_all := (XRead.flat_all false).
+Local Notation ws_read := (XRead.ws_read false).
+
 Lemma ws_plain c : is_ws c = true -> is_quote c = false /\ (c =? 92) = false.
 Proof.
   unfold is_ws, is_quote. intros H.
@@ -307,3 +313,28 @@ Qed.
 
 Theorem bd_read_fields d chunks : bd_read d chunks = fields d (concat chunks).
 Proof. unfold bd_read. apply bd_all_fields. lia. Qed.
+
+(* ---- the whole-line reader of -I, on the lines C20 speaks about: free of quotes, backslashes and leading blanks ---- *)
+Definition line_char (c : byte) : bool := negb (is_quote c) && negb (c =? 92) && negb (c =? 10).
+Lemma scan_line_body : forall line acc rest, forallb line_char line = true ->
+  XRead.scan true ENone acc true false (line ++ 10 :: rest) = Done (acc ++ line) true rest.
+Proof.
+  induction line as [|c line IH]; intros acc rest H.
+  - cbn [app XRead.scan]. change (is_quote 10) with false. change (10 =? 92) with false. change (is_ws 10) with true.
+    cbn. now rewrite app_nil_r.
+  - cbn [forallb] in H. apply andb_true_iff in H as [Hc H]. unfold line_char in Hc.
+    apply andb_true_iff in Hc as [Hc H3]. apply andb_true_iff in Hc as [H1 H2]. apply negb_true_iff in H1, H2, H3.
+    cbn [app XRead.scan]. rewrite H1, H2, H3. cbn [negb andb]. rewrite andb_false_r.
+    rewrite IH by exact H. now rewrite <- app_assoc.
+Qed.
+(* a non-empty line that does not begin with a blank is one argument, the entire line: blanks inside it do not split it *)
+Theorem whole_line_one_argument c line rest : is_ws c = false -> forallb line_char (c :: line) = true ->
+  XRead.flat_next true (c :: line ++ 10 :: rest) = Ok (Some (c :: line, true, rest)).
+Proof.
+  intros Hc H. unfold XRead.flat_next. cbn [forallb] in H. apply andb_true_iff in H as [H0 H]. unfold line_char in H0.
+  apply andb_true_iff in H0 as [H0 H3]. apply andb_true_iff in H0 as [H1 H2]. apply negb_true_iff in H1, H2, H3.
+  cbn [XRead.scan]. rewrite H1, H2, Hc. cbn [andb app]. rewrite (scan_line_body line [c] rest H). reflexivity.
+Qed.
+(* an empty line is no argument *)
+Theorem whole_line_empty rest : XRead.flat_next true (10 :: rest) = XRead.flat_next true rest.
+Proof. reflexivity. Qed.
